@@ -23,7 +23,8 @@ Tree shapes
 
 LIB = {
     "Box": "class Box(val fa: int, val fb: int) {\n  method sum(): int = this.fa + this.fb\n  function mk(x: int): Box = Box.init(x, x + 1)\n}",
-    "Sh": "class Sh(Ci(int), Re(int, int), Em) {\n  method area(): int = match this { Ci(r) -> r * r, Re(w, h) -> w * h, Em -> 0 }\n}",
+    "Shp": "interface Shp {\n  method area(): int\n}",
+    "Sh": "class Sh(Ci(int), Re(int, int), Em) : Shp {\n  method area(): int = match this { Ci(r) -> r * r, Re(w, h) -> w * h, Em -> 0 }\n}",
     "Opt": "class Opt(No, So(int)) {\n  function of(x: int): Opt = if x % 2 == 0 { Opt.So(x) } else { Opt.No() }\n}",
     "Fig": "class Fig(Ca(Box), Sq(Box), Dt) {\n  function of(x: int, y: int): Fig = if x % 3 == 0 { Fig.Ca(Box.init(x, y)) } else { if x % 3 == 1 { Fig.Sq(Box.init(y, x)) } else { Fig.Dt() } }\n}",
     "Wr": "class Wr(Wa(Sh), Wb(int)) {\n  function of(x: int): Wr = if x % 4 == 0 { Wr.Wb(x) } else { if x % 4 == 1 { Wr.Wa(Sh.Ci(x)) } else { if x % 4 == 2 { Wr.Wa(Sh.Re(x, 1)) } else { Wr.Wa(Sh.Em()) } } }\n}",
@@ -31,7 +32,7 @@ LIB = {
     "Maybe": "class Maybe<T>(Nothing, Just(T)) {\n  method getOr(d: T): T = match this { Nothing -> d, Just(v) -> v }\n}",
     "Cell": "class Cell<T>(val v: T) {\n  method <R> map(f: (T) -> R): Cell<R> = Cell.init(f(this.v))\n  method get(): T = this.v\n}",
 }
-LIB_ORDER = ["Box", "Sh", "Opt", "Fig", "Wr", "Wr2", "Maybe", "Cell"]
+LIB_ORDER = ["Box", "Shp", "Sh", "Opt", "Fig", "Wr", "Wr2", "Maybe", "Cell"]
 
 HELPERS = [
     "  function <T> id(x: T): T = x",
@@ -275,7 +276,7 @@ class Gen:
                 self.broke = True
                 return ("raw", "true")
             return ("lit", r.range(0, 9))
-        k = r.below(31)
+        k = r.below(34)
         d = depth - 1
         if k <= 1:
             return ("bin", r.pick(["+", "-", "*"]), self.int_expr(env, d), self.int_expr(env, d))
@@ -377,6 +378,24 @@ class Gen:
             return self.hidden_placeholder_arg(env, d)
         if k in (26, 27, 28):
             return self.branch_join(env, d)
+        if k == 31:
+            self.forms.add("unary")
+            if r.chance(1, 2):
+                return ("un", "-", self.int_expr(env, d))
+            return ("if", ("un", "!", ("paren", ("bin", r.pick(["<", "==", ">="]), self.int_expr(env, d), self.int_expr(env, d)))),
+                    self.int_expr(env, d), self.int_expr(env, d))
+        if k == 32:
+            self.forms.add("member-access-on-variable")
+            bx = self.fresh()
+            return ("block", [("let", ("pid", bx, "Box"), ("raw2", "Box.mk(", [self.int_expr(env, d)], ")"), False)],
+                    ("bin", "+", ("post", ("var", bx), ".fa"), ("post", ("var", bx), ".sum()")))
+        if k == 33:
+            self.forms.add("expression-statement")
+            v = self.fresh()
+            return ("block", [("let", ("pid", v), self.int_expr(env, d), False),
+                              ("let", ("pstmt",), ("raw2", "Process.println(Str.fromInt(", [("var", v)], "))"), None),
+                              ("let", ("pstmt",), gc("Main.id", [("var", v)], 1), None)],
+                    ("var", v))
         if k in (29, 30) and env:
             self.forms.add("generic-arg-branch-mix")
             family = r.pick(["M", "L"])
@@ -531,6 +550,8 @@ def pat_s(p, top=True):
         return p[1]
     if k == "pwild":
         return "_"
+    if k == "praw":
+        return p[1]
     if k == "ptuple":
         return "(" + ", ".join(pat_s(q, False) for q in p[1]) + ")"
     if k == "pobj":
@@ -572,7 +593,9 @@ def expr_s(e):
     if k == "tuple":
         return "(" + ", ".join(expr_s(x) for x in e[1]) + ")"
     if k == "block":
-        ss = "".join(f"let {pat_s(p)}{(': ' + (p[2] if len(p) > 2 else 'int')) if ann else ''} = {expr_s(x)}; " for _, p, x, ann in e[1])
+        ss = "".join((f"{expr_s(x)}; " if p[0] == "pstmt" else
+                      f"let {pat_s(p)}{(': ' + (p[2] if len(p) > 2 else 'int')) if ann else ''} = {expr_s(x)}; ")
+                     for _, p, x, ann in e[1])
         return "{ " + ss + expr_s(e[2]) + " }"
     if k == "match":
         return "match " + expr_s(e[1]) + " { " + ", ".join(f"{pat_s(p)} -> {expr_s(b)}" for p, b in e[2]) + " }"
@@ -588,6 +611,9 @@ def expr_s(e):
         return expr_s(e[1]) + e[2]
     if k == "not":
         return "!(" + expr_s(e[1]) + ")"
+    if k == "un":
+        t = expr_s(e[2])
+        return e[1] + (t if e[2][0] in ("var", "lit") else "(" + t + ")")
     if k == "paren":
         return "(" + expr_s(e[1]) + ")"
     if k == "wrap":
@@ -615,20 +641,22 @@ def n_members(p):
 
 def render(p):
     """-> {module name: text}; entry module is `Main`."""
-    texts = {c: (LIB[c] if c != "Main" else main_class(p)) for c in p["classes"]}
+    extra = p.get("extra") or {}
+    texts = {c: (main_class(p) if c == "Main" else extra[c] if c in extra else LIB[c]) for c in p["classes"]}
+    pre = p.get("imports") or ""
     if p["split"]:
         moved = [c for c in p["classes"] if c in p["split"]]
         kept = [c for c in p["classes"] if c not in p["split"]]
         # a moved class may mention another moved / kept library class: Fig -> Box, Wr -> Sh
-        deps = {"Fig": ["Box"], "Wr": ["Sh"], "Wr2": ["Sh"]}
+        deps = {"Fig": ["Box"], "Wr": ["Sh", "Shp"], "Wr2": ["Sh", "Shp"], "Sh": ["Shp"]}
         need = sorted({d for c in moved for d in deps.get(c, []) if d not in moved})
         if need:      # keep it simple: dependencies move together
             moved += need
             kept = [c for c in kept if c not in need]
         back = sorted({c for k in kept for c in deps.get(k, []) if c in moved})
         return {"Lib": "\n".join(texts[c] for c in moved),
-                "Main": "import { " + ", ".join(moved) + " } from Lib;\n" + "\n".join(texts[c] for c in kept)}
-    return {"Main": "\n".join(texts[c] for c in p["classes"])}
+                "Main": pre + "import { " + ", ".join(moved) + " } from Lib;\n" + "\n".join(texts[c] for c in kept)}
+    return {"Main": pre + "\n".join(texts[c] for c in p["classes"])}
 
 
 # ---------------------------------------------------------------- structural helpers
@@ -636,7 +664,7 @@ def render(p):
 def map_expr(e, f):
     """bottom-up map over expressions; f(node) -> node. Patterns are passed through f too."""
     k = e[0]
-    if k in ("lit", "var", "raw", "pid", "pwild"):
+    if k in ("lit", "var", "raw", "pid", "pwild", "praw", "pstmt"):
         return f(e)
     if k == "raw2":
         return f((k, e[1], [map_expr(x, f) for x in e[2]], e[3]))
@@ -665,6 +693,8 @@ def map_expr(e, f):
         return f((k, map_expr(e[1], f), e[2]))
     if k in ("paren", "wrap", "not"):
         return f((k, map_expr(e[1], f)))
+    if k == "un":
+        return f((k, e[1], map_expr(e[2], f)))
     if k == "ptuple":
         return f((k, [map_expr(q, f) for q in e[1]]))
     if k == "pobj":
@@ -678,7 +708,11 @@ def map_expr(e, f):
 
 def rename_name(p, old, new):
     """consistent renaming of the local variable name `old` to `new` in the whole program"""
+    import re as _re
+    pat = _re.compile(r"\b" + _re.escape(old) + r"\b")
     def f(e):
+        if e[0] in ("raw", "praw"):        # raw text of the path family mentions locals too
+            return (e[0], pat.sub(new, e[1]))
         if e[0] in ("var", "pid") and e[1] == old:
             return (e[0], new) + tuple(e[2:])
         if e[0] == "lam":
@@ -726,7 +760,7 @@ def annotation_sites(p):
         elif e[0] == "block":
             for s in e[1]:
                 if s[1][0] == "pid" and s[2][0] != "lam":
-                    if not s[3]:
+                    if s[3] is False:       # None: not an annotation site (type not `int`-like / raw)
                         sites.append(("let", cnt["let"]))
                     cnt["let"] += 1
         elif e[0] == "gcall" and e[4]:
@@ -821,3 +855,98 @@ def swap_branches(p, which):
     q = dict(p)
     q["funs"] = [{"name": fn["name"], "params": fn["params"], "body": map_expr(fn["body"], f)} for fn in p["funs"]]
     return q
+
+
+# ---------------------------------------------------------------- deterministic family: checker paths (C13)
+# every entry: (label, expected verdict, statements of f0's body before the final `v0`, extra classes,
+# import prefix). The bodies are trees, so every structural rewrite applies; the erroneous piece is raw text.
+
+def _let(name, text):
+    return ("let", ("pid", name), ("raw", text), None)
+
+def _letp(pat, text):
+    return ("let", ("praw", pat), ("raw", text), None)
+
+PRIV = ("Priv", "class Priv(private val s: int, val t: int) {\n  function mk(): Priv = Priv.init(1, 2)\n}")
+CMP = ("Cmp", "interface Cmp {\n  method cmp(): int\n}")
+BD = ("Bd", "class Bd {\n  function <T: Cmp> use(x: T): int = 1\n}")
+
+PATH_FAMILY = [
+    # ---- accepted forms the random generator does not produce
+    ("tuple-5", "accepted", [_letp("(t1, t2, t3, t4, t5)", "(1, 2, 3, 4, v0)")], [], ""),
+    ("tuple-sizes-5-to-16", "accepted",
+     [_let("u%d" % n, "(" + ", ".join(str(i) for i in range(1, n)) + ", v0)") for n in range(5, 17)], [], ""),
+    ("string-concat", "accepted", [_let("t1", '"a" :: "b"'), _let("t2", "Process.println(t1 :: \"c\")")], [], ""),
+    ("bound-satisfied", "accepted", [_let("t1", "Bd.use(Cm.init(v0))")], [CMP, BD, ("Cm", "class Cm(val c: int) : Cmp {\n  method cmp(): int = this.c\n}")], ""),
+    # ---- expression-level diagnostics (each decides accept / reject)
+    ("unresolved-class", "rejected", [_let("t1", "Nope.foo()")], [], ""),
+    ("field-on-int", "rejected", [_let("t1", "v0.foo")], [], ""),
+    ("method-targs-arity", "rejected", [_let("t1", "Main.id<int, int>(v0)")], [], ""),
+    ("field-targs", "rejected", [_let("t1", "Box.init(1, 2).fa<int>")], [], ""),
+    ("unknown-member", "rejected", [_let("t1", "Box.init(1, 2).nope")], [], ""),
+    ("builtin-member-as-value", "rejected", [_let("t1", "Process.println")], [], ""),
+    ("generic-function-as-value", "rejected", [_let("t1", "Main.id")], [], ""),
+    ("call-non-function", "rejected", [_let("t1", "v0(1)")], [], ""),
+    ("call-arity", "rejected", [_let("t1", "Main.inc(1, 2)")], [], ""),
+    ("bound-violated", "rejected", [_let("t1", "Bd.use(v0)")], [CMP, BD], ""),
+    ("if-let-irrefutable", "rejected", [_let("t1", "if let t2 = v0 { t2 } else { 0 }")], [], ""),
+    ("match-non-exhaustive", "rejected", [_let("t1", "match Main.shOf(v0) { Ci(t2) -> t2 }")], [], ""),
+    ("let-refutable", "rejected", [_letp("Ci(t1)", "Main.shOf(v0)")], [], ""),
+    # ---- assignability / meet / instantiation arms (type_system.rs, typing_context.rs)
+    ("fn-arity-annotation", "rejected", [("let", ("praw", "t1: (int, int) -> int"), ("raw", "(w1: int) -> w1"), None)], [], ""),
+    ("nominal-targ-mismatch", "rejected", [("let", ("praw", "t1: Maybe<bool>"), ("raw", "Maybe.Just(v0)"), None)], [], ""),
+    ("meet-return-mismatch", "rejected", [_let("t1", "Main.comb((w1, w2) -> true, 2)")], [], ""),
+    ("meet-arity-mismatch", "rejected", [_let("t1", "Main.comb((w1) -> 1, 2)")], [], ""),
+    ("meet-branch-conflict", "rejected", [_let("t1", "Main.orElse(if v0 < 5 { Maybe.Nothing() } else { Maybe.Just(true) }, 42)")], [], ""),
+    ("annotation-targs-arity", "rejected", [("let", ("praw", "t1: Maybe<int, int>"), ("raw", "Maybe.Just(v0)"), None)], [], ""),
+    ("annotation-targs-on-plain-class", "rejected", [("let", ("praw", "t1: Box<int>"), ("raw", "Box.init(1, v0)"), None)], [], ""),
+    ("annotation-interface-as-targ", "rejected", [("let", ("praw", "t1: Maybe<Cmp>"), ("raw", "Maybe.Nothing()"), None)], [CMP], ""),
+    ("annotation-bound-violated", "rejected", [("let", ("praw", "t1: Bx<int>"), ("raw", "Bx.init(v0)"), None)], [CMP, ("Bx", "class Bx<T: Cmp>(val v: T) {}")], ""),
+    ("annotation-bound-satisfied", "accepted", [("let", ("praw", "t1: Bx<Cm>"), ("raw", "Bx.init(Cm.init(v0))"), None)],
+     [CMP, ("Cm", "class Cm(val c: int) : Cmp {\n  method cmp(): int = this.c\n}"), ("Bx", "class Bx<T: Cmp>(val v: T) {}")], ""),
+    ("diamond-interfaces", "accepted", [], [("Ia", "interface Ia {\n  method a(): int\n}"), ("Ib", "interface Ib : Ia {}"), ("Ic", "interface Ic : Ia {}"),
+                                            ("Cd", "class Cd : Ib, Ic {\n  method a(): int = 1\n}")], ""),
+    # ---- pattern diagnostics
+    ("tuple-pattern-on-int", "rejected", [_letp("(t1, t2)", "v0")], [], ""),
+    ("object-pattern-on-int", "rejected", [_letp("{ fa }", "v0")], [], ""),
+    ("if-let-variant-on-int", "rejected", [_let("t1", "if let Ci(t2) = v0 { t2 } else { 0 }")], [], ""),
+    ("object-pattern-duplicate-field", "rejected", [_letp("{ fa, fa as t2, fb as _ }", "Box.init(1, v0)")], [], ""),
+    ("variant-pattern-on-int", "rejected", [_let("t1", "match v0 { Ci(t2) -> t2 }")], [], ""),
+    ("invalid-pattern-nested", "rejected",
+     [_let("t1", "match v0 { (t2, { fa, fb as _ }, Ci(t3), _, Re(t4, _) | Ci(t4)) -> 1 }")], [], ""),
+    ("tuple-pattern-too-many", "rejected", [_letp("(t1, t2, t3)", "(1, v0)")], [], ""),
+    ("tuple-pattern-too-few", "rejected", [_letp("(t1, t2)", "(1, 2, v0)")], [], ""),
+    ("tuple-pattern-private-field", "rejected", [_letp("(t1, t2)", "Priv.mk()")], [PRIV], ""),
+    ("object-pattern-private-field", "rejected", [_letp("{ s, t }", "Priv.mk()")], [PRIV], ""),
+    ("object-pattern-unknown-field", "rejected", [_letp("{ fa, zz }", "Box.init(1, v0)")], [], ""),
+    ("object-pattern-missing-field", "rejected", [_letp("{ fa }", "Box.init(1, v0)")], [], ""),
+    ("variant-unknown-tag", "rejected", [_let("t1", "match Main.shOf(v0) { Zz(t2) -> t2, Ci(_) -> 1, Re(_, _) -> 2, Em -> 3 }")], [], ""),
+    ("variant-surplus-element", "rejected", [_let("t1", "match Main.shOf(v0) { Ci(t2, t3) -> t2, Re(_, _) -> 2, Em -> 3 }")], [], ""),
+    ("variant-too-few", "rejected", [_let("t1", "match Main.shOf(v0) { Ci(t2) -> t2, Re(t3) -> t3, Em -> 3 }")], [], ""),
+    ("or-pattern-inconsistent-names", "rejected", [_let("t1", "match Main.shOf(v0) { Ci(t2) | Re(t3, _) -> 1, Em -> 3 }")], [], ""),
+    ("or-pattern-inconsistent-types", "rejected", [_let("t1", "match Wr.of(v0) { Wa(t2) | Wb(t2) -> 1 }")], [], ""),
+    # ---- declarations: interface conformance, hierarchy, imports
+    ("iface-tparam-arity", "rejected", [], [("If1", "interface If1 {\n  method <T> m1(x: T): T\n}"), ("C1", "class C1 : If1 {\n  method m1(x: int): int = x\n}")], ""),
+    ("iface-tparam-name", "rejected", [], [("If1", "interface If1 {\n  method <T> m1(x: T): T\n}"), ("C1", "class C1 : If1 {\n  method <U> m1(x: U): U = x\n}")], ""),
+    ("iface-tparam-bound", "rejected", [], [CMP, ("If1", "interface If1 {\n  method <T: Cmp> m1(x: T): int\n}"), ("C1", "class C1 : If1 {\n  method <T> m1(x: T): int = 1\n}")], ""),
+    ("iface-tparam-bound-different", "rejected", [], [CMP, ("Cmp2", "interface Cmp2 {\n  method cmp2(): int\n}"),
+        ("If1", "interface If1 {\n  method <T: Cmp> m1(x: T): int\n}"), ("C1", "class C1 : If1 {\n  method <T: Cmp2> m1(x: T): int = 1\n}")], ""),
+    ("iface-signature-mismatch", "rejected", [], [("If1", "interface If1 {\n  method m1(x: int): int\n}"), ("C1", "class C1 : If1 {\n  method m1(x: int): bool = true\n}")], ""),
+    ("iface-private-member", "rejected", [], [("If1", "interface If1 {\n  method m1(x: int): int\n}"), ("C1", "class C1 : If1 {\n  private method m1(x: int): int = x\n}")], ""),
+    ("iface-missing-member", "rejected", [], [("If1", "interface If1 {\n  method m1(x: int): int\n  method m2(): int\n}"), ("C1", "class C1 : If1 {\n  method m1(x: int): int = x\n}")], ""),
+    ("iface-conforming", "accepted", [], [("If1", "interface If1 {\n  method <T> m1(x: T): T\n}"), ("C1", "class C1 : If1 {\n  method <T> m1(x: T): T = x\n}")], ""),
+    ("function-in-interface", "rejected", [], [("If2", "interface If2 {\n  function f(): int\n}")], ""),
+    ("cyclic-interfaces", "rejected", [], [("Ia", "interface Ia : Ib {}"), ("Ib", "interface Ib : Ia {}")], ""),
+    ("class-extends-class", "rejected", [], [("C2", "class C2 : Box {}")], ""),
+    ("import-missing-export", "rejected", [], [], "import { NoSuchClass } from std.option;\n"),
+    ("import-unresolved-module", "rejected", [], [], "import { A } from no.such.mod;\n"),
+]
+
+
+def path_program(entry):
+    label, expect, stmts, extra, imports = entry
+    body = ("block", list(stmts), ("var", "v0")) if stmts else ("bin", "+", ("var", "v0"), ("lit", 1))
+    names = [n for n, _ in extra]
+    return {"funs": [{"name": "f0", "params": ["v0"], "body": body}], "args": [[3]],
+            "classes": LIB_ORDER + names + ["Main"], "split": None, "extra": dict(extra), "imports": imports,
+            "forms": ["path-" + label], "broken": None if expect == "accepted" else "path", "path": (label, expect)}
